@@ -560,7 +560,7 @@ func history(c *vk.C, tg target, k int, dir string) {
 	rng := rand.New(rand.NewPCG(uint64(c.Seed), uint64(k)))
 	s, cleanup := tg.mk(dir)
 
-	defer cleanup()
+	defer func() { cleanup() }()
 
 	nClients := 2 + rng.IntN(7)
 	nIDs := 1 + rng.IntN(3)
@@ -574,6 +574,40 @@ func history(c *vk.C, tg target, k int, dir string) {
 		}
 	}
 
+	// cold-start histories (every third): nothing touches the state before the clients do - no watch, all clients released
+	// from a barrier - so the very first accesses (lazy creation of namespaces / collections, lazy load of a non-empty backing
+	// store) race with each other. For the persistent target the file is first populated through another instance; those
+	// operations are part of the recorded history (the state is the file).
+	cold := k%3 == 2
+
+	rec := &recorder{}
+
+	var (
+		writes [2]atomic.Int64
+		fails  atomic.Int64
+		seq    atomic.Int64
+		wg     sync.WaitGroup
+	)
+
+	if cold {
+		c.Count("histories_cold_start", 1)
+	}
+
+	if cold && tg.name == "bolt" {
+		pre := &worker{c: c, st: s, rng: rand.New(rand.NewPCG(rng.Uint64(), 99)), id: 99, keys: keys, rec: rec, last: map[string]resource.Resource{},
+			target: tg.name, writes: &writes, fails: &fails, seq: &seq}
+
+		for j := 0; j < 4+rng.IntN(6); j++ {
+			pre.do()
+		}
+
+		cleanup()
+
+		s, cleanup = tg.mk(dir)
+
+		c.Count("histories_cold_start_on_populated_store", 1)
+	}
+
 	// an unfiltered watch per kind counts the commits
 	ctx, cancel := context.WithCancel(context.Background())
 	defer cancel()
@@ -583,7 +617,12 @@ func history(c *vk.C, tg target, k int, dir string) {
 		errored [2]atomic.Bool
 	)
 
-	for ti, typ := range types[:nTypes] {
+	watchTypes := types[:nTypes]
+	if cold {
+		watchTypes = nil
+	}
+
+	for ti, typ := range watchTypes {
 		ch := make(chan state.Event, 1024)
 
 		if err := s.WatchKind(ctx, resource.NewMetadata("ns", typ, "", resource.VersionUndefined), ch); err != nil {
@@ -610,16 +649,8 @@ func history(c *vk.C, tg target, k int, dir string) {
 		}()
 	}
 
-	rec := &recorder{}
-
-	var (
-		writes [2]atomic.Int64
-		fails  atomic.Int64
-		seq    atomic.Int64
-		wg     sync.WaitGroup
-	)
-
 	opsPer := max(3, 40/nClients+rng.IntN(4))
+	start := make(chan struct{})
 
 	for i := 0; i < nClients; i++ {
 		w := &worker{c: c, st: s, rng: rand.New(rand.NewPCG(rng.Uint64(), uint64(i))), id: i, keys: keys, rec: rec, last: map[string]resource.Resource{},
@@ -630,18 +661,21 @@ func history(c *vk.C, tg target, k int, dir string) {
 		go func() {
 			defer wg.Done()
 
+			<-start
+
 			for j := 0; j < opsPer; j++ {
 				w.do()
 			}
 		}()
 	}
 
+	close(start)
 	wg.Wait()
 
 	// commits published == successful writes
 	deadline := time.Now().Add(5 * time.Second)
 
-	for ti := range types[:nTypes] {
+	for ti := range watchTypes {
 		for events[ti].Load() < writes[ti].Load() && !errored[ti].Load() && time.Now().Before(deadline) {
 			time.Sleep(time.Millisecond)
 		}
